@@ -481,6 +481,23 @@ fn build_msg(m: &str, me: &Device<MockSigner>) -> Option<Message> {
             Some(announce(ann.into(), peer_no(an)?, bool01(sig)?, me))
         }
         ["s", since, until] => Some(Message::subscribe(Filter::default(), ts(since)?, ts(until)?)),
+        // the subscriber chooses the size of its bloom filter (1, 4 or 16 KiB on the wire) and its contents:
+        // `<fill>` is a byte value, or `r<seed>` for pseudo-random contents
+        ["s", since, until, kib, fill] => {
+            let size = match *kib {
+                "1" => 1024usize,
+                "4" => 4096,
+                "16" => 16384,
+                _ => return None,
+            };
+            let bytes: Vec<u8> = if let Some(seed) = fill.strip_prefix('r') {
+                Rng::new(seed.parse().ok()?).bytes(size)
+            } else {
+                vec![fill.parse::<u8>().ok()?; size]
+            };
+            let filter = Filter::from(radicle_node::service::filter::BloomFilter::from(bytes));
+            Some(Message::subscribe(filter, ts(since)?, ts(until)?))
+        }
         ["p", n] => Some(Message::Ping(Ping { ponglen: n.parse().ok()?, zeroes: ZeroBytes::new(0) })),
         ["q", n] => Some(Message::Pong { zeroes: ZeroBytes::new(n.parse().ok()?) }),
         ["o"] => Some(Message::Info(Info::RefsAlreadySynced { rid: rid(1), at: oid(1) })),
@@ -814,7 +831,16 @@ fn gen_b(rng: &mut Rng) -> String {
             }
             13..=15 => {
                 let v = [0u64, 1, 3, 5, NOW, NOW + 1, TS_MAX];
-                format!("r{p}:s,{},{}", *rng.pick(&v), *rng.pick(&v))
+                if rng.bool() {
+                    let fill = match rng.below(3) {
+                        0 => "0".to_string(),
+                        1 => "255".to_string(),
+                        _ => format!("r{}", rng.below(1000)),
+                    };
+                    format!("r{p}:s,{},{},{},{fill}", *rng.pick(&v), *rng.pick(&v), *rng.pick(&[1u64, 4, 16]))
+                } else {
+                    format!("r{p}:s,{},{}", *rng.pick(&v), *rng.pick(&v))
+                }
             }
             16..=17 => format!("r{p}:p,{}", *rng.pick(&[0u64, 1, 100, 65530, 65531, 65532, 65535])),
             18 => format!("r{p}:q,{}", *rng.pick(&[0u64, 5, 65531, 65535])),
@@ -890,6 +916,51 @@ fn directed_restart(rng: &mut Rng) -> String {
     ops.push(format!("c{}", rng.below(3)));
     ops.push("r0:p,1".into());
     format!("b 0c 1,2/{known} {}", ops.join(" "))
+}
+
+/// A known peer in any session state subscribes with a filter of each valid size and arbitrary contents, then
+/// announces inventories of 0, 1, ~100, 900, 2973 repositories that change the routing table (new repositories,
+/// increasing timestamps), and refs; another peer relays some of them.
+fn directed_subscribe(rng: &mut Rng) -> String {
+    let p = rng.below(4);
+    let q = (p + 1) % 4;
+    let st = *rng.pick(&["c", "o", "i", "a"]);
+    let mut t = NOW;
+    let mut next = || {
+        t += 1;
+        t
+    };
+    let fill = match rng.below(3) {
+        0 => "0".to_string(),
+        1 => "255".to_string(),
+        _ => format!("r{}", rng.below(1000)),
+    };
+    let mut base = 10_000 * (1 + rng.below(50));
+    let mut inv = |n: u64| -> String {
+        if n == 0 {
+            return "-".to_string();
+        }
+        let s = (base..base + n).map(|x| x.to_string()).collect::<Vec<_>>().join(";");
+        base += n;
+        s
+    };
+    let mut ops = vec![];
+    if rng.chance(2, 3) {
+        ops.push(format!("r{p}:s,0,{TS_MAX},{},{fill}", *rng.pick(&[1u64, 4, 16])));
+    } else {
+        ops.push(format!("r{p}:s,0,{TS_MAX}"));
+    }
+    for _ in 0..rng.range(1, 3) {
+        let n = *rng.pick(&[0u64, 1, 2, 100, 856, 900, 2973]);
+        let relayer = if rng.chance(1, 4) { q } else { p };
+        ops.push(format!("r{relayer}:i,{p},1,{},{}", next(), inv(n)));
+    }
+    ops.push(format!("r{p}:f,{p},1,{},1,{p}@1;{q}@2", next()));
+    if rng.bool() {
+        ops.push(format!("r{p}:s,5,3,{},{fill}", *rng.pick(&[1u64, 4, 16])));
+        ops.push(format!("r{p}:i,{p},1,{},{}", next(), inv(*rng.pick(&[1u64, 100, 900]))));
+    }
+    format!("b {p}{st},{q}c 1,2,3/{p},{q} {}", ops.join(" "))
 }
 
 fn gen_d(rng: &mut Rng) -> String {
@@ -1237,6 +1308,8 @@ fn main() {
                 directed_b(&mut rng)
             } else if i % 7 == 3 && i % 2 == 1 {
                 directed_restart(&mut rng)
+            } else if i % 7 == 5 {
+                directed_subscribe(&mut rng)
             } else {
                 gen_b(&mut rng)
             };
@@ -1256,7 +1329,7 @@ fn main() {
          (b) service histories: up to 6 peers in every session state (none/initial/attempted/connected in+out/disconnected), up to 14 ops \
          (announcements with timestamps 0,1,now-delta-1,now+delta,now+delta+1,i64::MAX, bad signatures, own id, unknown announcers, empty and \
          maximal inventories/refs, subscribe with since>until, pings at the pong-size boundary, pongs, info, disconnect/reconnect events) plus \
-         directed histories reaching fetch / already-fetching / at-capacity / queue, restarts of the node after announcements with tiny timestamps; (d) real Wire, one connected peer (inbound/outbound): 1-12 control/git frames with stream ids of either initiator, every kind, boundary ids, interleaved with own fetches and worker results; (c) all 65536 hex length prefixes and structured request headers; \
+         directed histories reaching fetch / already-fetching / at-capacity / queue, restarts of the node after announcements with tiny timestamps, subscribes with 1/4/16 KiB filters of arbitrary contents followed by routing-changing inventories of 0..2973 repositories and refs; (d) real Wire, one connected peer (inbound/outbound): 1-12 control/git frames with stream ids of either initiator, every kind, boundary ids, interleaved with own fetches and worker results; (c) all 65536 hex length prefixes and structured request headers; \
          non-trivial = well-formed case text; distinct by input text",
         false,
     );
